@@ -280,6 +280,62 @@ impl Prop for C16 {
                 return CaseResult { discs: vec![Disc::new(format!("name|role={}|pattern={}|kind=unparsable", c.role, if kw { format!("kw:{}", c.name.to_lowercase()) } else { class }), format!("{e}\n{src}\n{gen}"))], nontrivial: false, outcome: "unparsable".into(), skipped: None };
             }
         };
+        // identifiers are also spelled in the items the backend options add (From impls of CHOICE alternatives)
+        if matches!(c.role.as_str(), "alternative" | "pair") || (c.role == "typekind" && c.other.as_deref().map_or(false, |k| k.starts_with("CHOICE"))) {
+            let cfg = Cfg { from_impls: true, ..Cfg::default() };
+            if let Outcome::Ok { generated, .. } = compile_rasn(&[src.clone()], &cfg) {
+                let kw = is_keyword(&c.name) || is_keyword(&c.name.to_lowercase());
+                let pat = if kw { format!("kw:{}", c.name.to_lowercase()) } else { class.clone() };
+                match syn::parse_file(&generated) {
+                    Err(e) => discs.push(Disc::new(format!("name|role={}|pattern={pat}|kind=unparsable|cfg=from-impls", c.role), format!("{e}\n{src}\n{generated}"))),
+                    Ok(f) => {
+                        // every `Self::<x>(value)` inside an impl From names a variant of the enum it is implemented for
+                        struct V {
+                            variants: std::collections::BTreeMap<String, Vec<String>>,
+                            bad: Vec<String>,
+                            cur: Option<String>,
+                        }
+                        impl<'a> syn::visit::Visit<'a> for V {
+                            fn visit_item_enum(&mut self, e: &'a syn::ItemEnum) {
+                                self.variants.insert(e.ident.to_string(), e.variants.iter().map(|v| v.ident.to_string()).collect());
+                            }
+                            fn visit_item_impl(&mut self, i: &'a syn::ItemImpl) {
+                                if let (Some((_, tr, _)), syn::Type::Path(tp)) = (&i.trait_, &*i.self_ty) {
+                                    if tr.segments.last().map_or(false, |s| s.ident == "From") {
+                                        self.cur = tp.path.segments.last().map(|s| s.ident.to_string());
+                                        syn::visit::visit_item_impl(self, i);
+                                        self.cur = None;
+                                    }
+                                }
+                            }
+                            fn visit_expr_path(&mut self, p: &'a syn::ExprPath) {
+                                if let Some(cur) = &self.cur {
+                                    let segs: Vec<String> = p.path.segments.iter().map(|s| s.ident.to_string()).collect();
+                                    if segs.len() == 2 && segs[0] == "Self" {
+                                        if let Some(vs) = self.variants.get(cur) {
+                                            if !vs.contains(&segs[1]) {
+                                                self.bad.push(format!("{cur}::{}", segs[1]));
+                                            }
+                                        }
+                                    }
+                                }
+                            }
+                        }
+                        let mut v = V { variants: Default::default(), bad: vec![], cur: None };
+                        // enums first, then impls
+                        for it in f.items.iter().flat_map(|it| if let syn::Item::Mod(m) = it { m.content.as_ref().map(|c| c.1.clone()).unwrap_or_default() } else { vec![] }) {
+                            if let syn::Item::Enum(e) = &it {
+                                syn::visit::Visit::visit_item_enum(&mut v, e);
+                            }
+                        }
+                        syn::visit::Visit::visit_file(&mut v, &f);
+                        if !v.bad.is_empty() {
+                            discs.push(Disc::new(format!("name|role={}|pattern={pat}|kind=from-impl-variant|cfg=from-impls", c.role), format!("From impls construct undeclared variants {:?}\n{src}\n{generated}", v.bad)));
+                        }
+                    }
+                }
+            }
+        }
         let m = match p.only() {
             Some(m) => m,
             None => return CaseResult::skip("no-module"),
